@@ -24,17 +24,14 @@ correspond HM+X   every stage of RectClip64::Execute read through private access
                     every output vertex that is not an input vertex within 1 unit (Euclidean) of the rectangle's boundary.
 Failure modes (classifier keys):
   clip.crash / clip.exception      RectClip crashed, hung (timeout / 3 GiB address space limit) or threw
-  clip.stale-ip2                   root cause key: the failing output is exactly what the model produces with a vertex tagged SX,
-                                   i.e. ExecuteInternal added ip2 although the second GetIntersection call of a pass-through
-                                   returned false (its result is ignored): a default-constructed (0,0) / stale point in the output
-  clip.ip-off-side                 root cause key: the failing output contains an intersection point computed OFF the rectangle side (GetSegmentIntersectPt
+  clip.ip-off-side                 (regression recogniser; repaired by triage/C08-ip-onto-side.patch) root cause key: the failing output contains an intersection point computed OFF the rectangle side (GetSegmentIntersectPt
                                    truncates x1 + t*dx1, so the perpendicular coordinate can be one unit off), and the same model with computed
                                    intersection points projected onto their side passes every clause at the same sample points
   clip.vertex-outside              an output vertex outside rect + 1
   clip.new-vertex-off-boundary     a new vertex farther than 1 from the rectangle's boundary
   clip.inside-changed              a polygon entirely inside the rectangle is not returned unchanged
   clip.outside-not-vanished        a polygon that misses the rectangle produced output
-  clip.outside-degenerate-path     ... and that output consists only of paths with fewer than 3 vertices, which cover nothing (GetPath returns the one
+  clip.outside-degenerate-path     (regression recogniser; repaired by triage/C08-getpath-degenerate.patch) ... and that output consists only of paths with fewer than 3 vertices, which cover nothing (GetPath returns the one
                                    or two points that are left after removing collinear vertices)
   clip.orientation                 an output path winds around a sample point (strictly inside, > 2 from the path) against the simple input's orientation
   clip.wn.simple                   winding clause, simple input, strictly inside
@@ -54,9 +51,10 @@ META = dict(
     note='theorems over the translated leaf functions (GetLocation partition, the Z/4 facts of HeadingClockwise/GetAdjacentLocation/'
          'AreOpposites, GetIntersection names a side, GetSegmentIntersection against a rectangle side lands within one unit of it for '
          '|coordinates| <= 2^25) and over a complete executable Coq model of RectClip64 (bounds shortcuts, provenance of every emitted '
-         'vertex incl. the refuted form for the stale ip2, corner loops) tied to the C++ by exact equality of every intermediate stage '
+         'vertex, corner loops) tied to the C++ by exact equality of every intermediate stage '
          'read through private access; the winding-number clause is validated, not proved: a Coq-verified sample checker decides it '
-         'exactly at the sample points of every generated case.  Known findings of the unchanged tree: clip.stale-ip2, clip.ip-off-side',
+         'exactly at the sample points of every generated case.  Three defects it exposed (stale ip2 of a one-sided pass-through, intersection '
+         'points one unit off their side, 1- and 2-point output paths) are repaired; their inputs are kept in corpus/C08',
     technique='Coq proof over translated kernels and a faithful executable model + exact stage-by-stage model/implementation correspondence '
               '+ Coq-verified specification checker on the public API (SPEC+O)',
     category='proof')
@@ -478,7 +476,6 @@ def evaluate(tools, cases, rng, npts, lattice=False, with_model=True, fixed_pts=
         if d['fail'] == ['clip.outside-not-vanished'] and d['out'] and all(len(p) < 3 for p in d['out']):
             d['fail'] = ['clip.outside-degenerate-path']
     # root cause classification of a failing output that is exactly the model's output (tagged with provenance):
-    #  clip.stale-ip2    it contains a point tagged SX: ip2 of a second GetIntersection call that returned false
     #  clip.ip-off-side  the diagnostic variant of the model in which the points returned by GetSegmentIntersection are projected onto the
     #                    side they were computed for (rect_clip_snapped_t) gives a DIFFERENT output (so some intersection point was computed
     #                    off its side) and that output passes every clause at the same sample points
@@ -490,11 +487,7 @@ def evaluate(tools, cases, rng, npts, lattice=False, with_model=True, fixed_pts=
             ps, tags = parse_tagged(o)
             if ps is None or ps != [[tuple(v) for v in p] for p in res[i]['out']]:
                 continue
-            if any(k == 3 for tg in tags for k in tg):
-                res[i]['clauses'] = res[i]['fail']
-                res[i]['fail'] = ['clip.stale-ip2']
-            else:
-                cand.append(i)
+            cand.append(i)
         if cand:
             sl = tools.model([clipt_cmd(cases[i]).replace('CLIPT', 'CLIPS', 1) for i in cand])
             ok = [(i, parse_tagged(o)[0]) for i, o in zip(cand, sl)]
@@ -543,9 +536,6 @@ def record(ctx, tools, case, d, rng):
             extra = (' (clauses %s; the output contains an intersection point that GetIntersection computed off the rectangle side -- the truncated '
                      'x1 + t*dx1 of GetSegmentIntersectPt -- and the failure disappears when computed intersection points are projected onto '
                      'their side)' % ','.join(e.get('clauses', [])))
-        if key == 'clip.stale-ip2':
-            extra = (' (clauses %s; the output is exactly the model\'s with a vertex that ExecuteInternal adds as ip2 although the second '
-                     'GetIntersection call of a pass-through returned false -- its result is ignored)' % ','.join(e.get('clauses', [])))
         ctx.violation(key, 'RectClip violates "%s"%s: %s' % (key, extra, describe(small, e)),
                       replay=dict(kind='clip', rect=small['rect'], path=small['path'], key=key, pts=e.get('pts') if e.get('pts') and len(e['pts']) <= 160 else None,
                                   original=dict(rect=case['rect'], path=case['path'])))
